@@ -141,6 +141,8 @@ class FuncCtx:
             base = self.canon(ch[0], depth, subst)
             if base.endswith("-><anon>") or base.endswith(".<anon>"):
                 return base[:-6] + n["name"]
+            if base.startswith("&") and n.get("isArrow") and not base.startswith("&("):
+                return base[1:] + "." + n["name"]       # (&x)->f  ==  x.f
             return base + ("->" if n.get("isArrow") else ".") + n["name"]
         if k == "UnaryOperator":
             op = n.get("opcode")
